@@ -420,6 +420,13 @@ def flatPairsFrom (d : Nat) : List Nat → List (Nat × Nat)
 
 def flatPairs (sizes : List Nat) : List (Nat × Nat) := flatPairsFrom 0 sizes
 
+/-- `ConcatDataset([objs[p] for p in pattern])[idx]` — the same object may be listed several times (and objects of
+length 0 may occur): position `d` in the concatenation, the object `pattern[d]` that sits there, the local index. -/
+def concatGetRep (objSizes : List Nat) (pattern : List Nat) (idx : Int) : Except Err (Nat × Nat × Nat) :=
+  match concatGet (pattern.map fun p => objSizes.getD p 0) idx with
+  | .ok (d, j) => .ok (d, pattern.getD d 0, j)
+  | .error e => .error e
+
 /-! ## Synthetic datasets: which (volume, slice, seed) an index designates -/
 
 /-- `num_slices = self.spatial_shape[0] if len(self.spatial_shape) == 3 else 1` (`FakeMRIBlobsDataset`) -/
